@@ -138,7 +138,9 @@ class Flavour:
         d = self._make(label)
         self.keep.append(d)
         self.labels[id(d)] = label
-        if label not in self.pool:
+        # (a `fresh` object never becomes the pooled one - except for DictWrapper, where fresh means a new wrapper
+        # around the pooled dict)
+        if label not in self.pool and (not fresh or self.name == "dictwrap"):
             self.pool[label] = d
         return d
 
